@@ -35,6 +35,7 @@ type HarnessResult struct {
 	WallS       float64                           `json:"wall_s"`
 	Funcs       []string                          `json:"functions_encoded"`
 	Solver      string                            `json:"solver"`
+	ModelOnly   bool                              `json:"model_only"`
 }
 
 func buildOverlay(repo, verif string) (map[string][]byte, error) {
@@ -284,6 +285,7 @@ func runHarness(prog *ssa.Program, pkg *ssa.Package, fn *ssa.Function, solver, t
 		res.Sat, res.Unsat, res.Unknown = sol.Sat, sol.Unsat, sol.Unknown
 		res.SolverS = sol.Time.Seconds()
 		res.Violations = e.violations
+		res.ModelOnly = e.usedModels
 		for f := range e.funcsSeen {
 			if strings.Contains(f, "IrineSistiana") && !strings.Contains(f, "VerifH_") && !strings.Contains(f, "verifrt") {
 				res.Funcs = append(res.Funcs, f)
